@@ -17,8 +17,8 @@ VERIF = os.path.dirname(os.path.dirname(os.path.abspath(__file__)))
 REPO = "/repo"
 
 CHECKS_FOR = [
-    (r"src/skinny(128|64)-cipher\.c", ["C01", "C04", "C10", "C03"]),
-    (r"src/mantis-cipher\.c", ["C02", "C03"]),
+    (r"src/skinny(128|64)-cipher\.c", ["C01", "C04", "C10", "C03", "C11"]),
+    (r"src/mantis-cipher\.c", ["C02", "C03", "C11"]),
     (r"src/.*-ctr.*\.c", ["C05", "C06", "C14", "C17", "C16"]),
     (r"src/.*-parallel.*\.c", ["C07", "C03", "C14", "C17", "C16"]),
     (r"src/skinny-internal\.[ch]", ["C13", "C16", "C17", "C05", "C07"]),
